@@ -10,11 +10,14 @@ CONSTANTS
   RlSizes = {0, 1, 2}
   SeekMax = 3
   Ops = TRUE
+  Hints = {1, 2}
+  IterSingleLine = TRUE
   Emit = FALSE
   Modes = {"shared"}
   ClampReadline = TRUE
   PadOdd = TRUE
   SeekFirst = TRUE
+  IterYieldsAll = FALSE
 SPECIFICATION Spec
 INVARIANT TypeOK
 INVARIANT IndexExact
